@@ -247,7 +247,7 @@ def run(res, tier, seed):
     res.traces += n_udp + n_ur
     res.evaluations += n_udp + n_ur
     res.extra["udp_generated_schedules_replayed"] = n_udp
-    res.extra["udp_replays_with_prompt_outcome"] = n_prompt
+    res.extra["udp_single_transmission_replays_with_prompt_outcome"] = n_prompt
     res.extra["udp_random_queries_recorded"] = n_ur
     res.extra["udp_random_outcomes"] = {o: sum(1 for v in ur_info.values() if v["o"] == o)
                                         for o in ("accept", "error", "timeout")}
